@@ -119,6 +119,10 @@ func (impl *serviceImpl) Propose(ctx gorums.ServerCtx, proposal *hotstuffpb.Prop
 		impl.srv.logger.Warnf("Could not get replica ID: %v", err)
 		return
 	}
+	if proposal.GetBlock() == nil {
+		impl.srv.logger.Warnf("Dropping proposal without block from replica %d", id)
+		return
+	}
 	if impl.srv.config.HasKauriTree() {
 		id = proposal.ProposerID()
 	}
